@@ -7,10 +7,16 @@
    the last byte of the last token - across any separators the LWS skipper crosses: runs of SP/HT and
    folded continuation lines (C07_separators) - an empty value is allowed, and the type is the table
    classification of the name (C16).
-   PARTIAL: the block level clauses (one header per logical line in order, count including dropped
-   headers, type-flag set, first-of-type look-up) and lone CR / lone LF line ends are carried by the
-   render/parse oracle and the correspondence run; so is the converse direction. *)
-From Sipsp Require Import Harness Classify HdrLine FLineSpec HdrSpec.
+   PROVED for the model, the header block (ParseHeaders, BlockSpec.v): every block of such lines
+   followed by the blank line, at any offset of any buffer, into a fresh list of any capacity, is
+   accepted at the end of the blank line with exactly one header per line in order: the count is the
+   number of lines (also when they did not fit the array), slot j holds line j (type, name, value as
+   for the single line, offsets of that line) for every j that fits, the type-flag set is exactly the set
+   of types seen, and the first-of-type look-up returns the first line of each known type
+   (C07_header_block).
+   PARTIAL: lone CR / lone LF line ends and the converse direction (accepted => of that shape) are
+   carried by the render/parse oracle and the correspondence run. *)
+From Sipsp Require Import Harness Classify HdrLine FLineSpec HdrSpec BlockSpec.
 
 Theorem C07_header_line : forall p name wsb lead t1 tl d x,
   nametok name -> name <> [] -> spaces wsb -> spaces lead -> tok t1 -> t1 <> [] -> good_tail tl -> is_sp d = false ->
@@ -52,3 +58,28 @@ Proof. exact hl_colon_type. Qed.
 Theorem C07_classification_is_the_table : forall name t, name <> [] ->
   (get_hdr_type name = t /\ t <> HdrOther) <-> In (map to_lower name, t) spec_hdrs.
 Proof. exact hdr_type_spec. Qed.
+
+(* ---- the header block ------------------------------------------------------------------------------------------------------------------ *)
+Theorem C07_header_block : forall ls p x n, Forall line_ok ls -> ls <> [] ->
+  let i := nnat (length p) in
+  let hs := hdrs_at i ls in
+  exists L, parse_headers (p ++ block_bytes ls ++ CR :: LF :: x) i (mkhdrs_st (hdrlst_init (repeat hdr0 n)) None)
+            = Done (i + nnat (length (block_bytes ls)) + 2) EOk (mkhdrs_st L None) /\
+    hl_n L = nnat (length ls) /\
+    (forall j, (j < length ls)%nat -> (j < n)%nat -> nth j (hl_hdrs L) hdr0 = nth j hs hdr0) /\
+    (forall t, t < 16 -> N.testbit (hl_pflags L) t = existsb (fun h => h_type h =? t) hs) /\
+    (forall t, HdrNone < t -> t < HdrOther -> hl_gethdr L t = Some (match first_of t hs with Some h => h | None => hdr0 end)).
+Proof. exact header_block_spec. Qed.
+(* what line j is reported as: the single-line result at the line's own offset *)
+Theorem C07_header_block_lines : forall l ls i,
+  hdrs_at i (l :: ls) = hdr_of l i :: hdrs_at (i + nnat (length (line_bytes l))) ls.
+Proof. reflexivity. Qed.
+(* the hypotheses are satisfiable: "Via: x" CRLF "X:" CRLF "v : y z" CRLF (three lines, two Via) *)
+Example C07_block_example :
+  Forall line_ok [LVal [86;105;97] [] [32] [120] []; LEmpty [88] [] []; LVal [118] [32] [32] [121] [([32], [122])]].
+Proof.
+  assert (G : good_tail [([32], [122])]).
+  { constructor; [|constructor]. split; [apply lws_run_spaces; [discriminate|repeat constructor]|split; [repeat constructor|discriminate]]. }
+  repeat (constructor; [cbn; repeat split; try discriminate; try exact G; repeat constructor; discriminate|]). constructor.
+Qed.
+Print Assumptions C07_header_block.
